@@ -2,6 +2,7 @@ import NmVerif.NN.PoolLemmas
 import NmVerif.NN.PoolReduceLemmas
 import NmVerif.NN.ConvLemmas
 import NmVerif.NN.Conv2dLemmas
+import NmVerif.NN.ComposeLemmas
 /-
   C17 — neural-network routines equal their reference (PyTorch) definitions.
 
@@ -201,6 +202,98 @@ theorem avg_pool_divisor_eq_torch (li : Idx) (H W kh kw sh sw i j : Nat) (hi : s
   exact ⟨by rw [a1, a2], by rw [b1, b2]⟩
 
 example : ((specWindow [] 3 3 2 2 2 2 1 0).length : Int) = 2 ∧ torchCountIncl 3 2 2 0 1 * torchCountIncl 3 2 2 0 0 = 2 := by decide
+
+/-! ## softmax / softmin (plumbing over an abstract element type with opaque `exp`, `max`, `−`, `+`, `/`) -/
+
+open NmVerif.Reduce in
+/-- **softmax over any axis** (negative axes count from the end), any rank, any positive extents, ANY element type and
+    element operations: the `view::softmax` composition (`reduce_maximum` keepdims → `subtract` → `exp` → `reduce_add`
+    keepdims → `divide`, both keepdims results broadcast back over the axis) exists, has the shape of the input, and the
+    element at `i` is `exp(x[i] − M) / S` where, with `L = lineOf shape axis i` = the indices sharing every coordinate
+    of `i` except the one on the axis (that coordinate running `0 .. n−1`, in this order),
+    `M` is the left fold of `max` over `x[L]` and `S` the left fold of `+` over `exp(x[k] − M)`, `k ∈ L` — exactly those
+    elements enter the normalising sum, each once.  Every element is defined. -/
+theorem softmax_eq_def {α : Type} (mx sub add div : α → α → α) (exp : α → α) (x : Arr α) (axis : Int)
+    (hs : Pos x.shape) (hv : ValidAxis x.shape.length axis) :
+    ∃ v, softmax mx sub add div exp (lift x) axis = some v ∧ v.shape = x.shape ∧
+      ∀ i, InShape i x.shape →
+        (v.get i = (foldFirst mx none ((lineOf x.shape (normAxis x.shape.length axis) i).map x.get)).bind fun M =>
+          (foldFirst add none ((lineOf x.shape (normAxis x.shape.length axis) i).map fun k => exp (sub (x.get k) M))).map
+            fun S => div (exp (sub (x.get i) M)) S) ∧
+        ∃ y, v.get i = some y := by
+  obtain ⟨v, h1, h2, h3⟩ := softmax_core mx sub add div exp (den_lift x) hs axis hv
+  refine ⟨v, h1, h2, fun i hi => ?_⟩
+  have hL := grp_single_eq_lineOf hi (normAxis_lt hv)
+  have he := h3 i hi
+  rw [hL] at he
+  refine ⟨he, ?_⟩
+  have hne : lineOf x.shape (normAxis x.shape.length axis) i ≠ [] := by rw [← hL]; exact grp_ne_nil hi
+  obtain ⟨M, hM⟩ := foldFirst_map_some mx x.get hne
+  obtain ⟨S, hS⟩ := foldFirst_map_some add (fun k => exp (sub (x.get k) M)) hne
+  exact ⟨_, by rw [he, hM, Option.bind_some, hS]; rfl⟩
+
+/-- non-vacuity: shape (2,3), axis −1 (= 1), index (1,2): the line is `[(1,0), (1,1), (1,2)]` -/
+example : Pos [2, 3] ∧ Reduce.ValidAxis 2 (-1) ∧ Reduce.normAxis 2 (-1) = 1 ∧ InShape [1, 2] [2, 3] ∧
+    lineOf [2, 3] 1 [1, 2] = [[1, 0], [1, 1], [1, 2]] ∧ lineOf [2, 3] 0 [1, 2] = [[0, 2], [1, 2]] := by decide
+
+/-- the composition evaluated on integers with `exp = id`, `/ = Int division`: row `[1, 5, 2]`, axis −1 → `M = 5`,
+    terms `[-4, 0, -3]`, `S = -7`, quotients `(-4)/(-7), 0/(-7), (-3)/(-7)` -/
+example :
+    let x : Arr Int := ⟨[1, 3], fun d => match d with | [_, b] => [1, 5, 2].getD b 0 | _ => 0⟩
+    (softmax Reduce.maximum (· - ·) (· + ·) (· / ·) id (lift x) (-1)).map (fun v => (v.shape, (allIdx v.shape).map v.get))
+      = some ([1, 3], [some ((-4) / (-7)), some (0 / (-7)), some ((-3) / (-7))]) := by decide
+
+open NmVerif.Reduce in
+/-- **softmin over any axis** = `softmax(negative(x))`: the same statement with every `x[k]` replaced by `neg x[k]` -/
+theorem softmin_eq_def {α : Type} (mx sub add div : α → α → α) (exp neg : α → α) (x : Arr α) (axis : Int)
+    (hs : Pos x.shape) (hv : ValidAxis x.shape.length axis) :
+    ∃ v, softmin mx sub add div exp neg (lift x) axis = some v ∧ v.shape = x.shape ∧
+      ∀ i, InShape i x.shape →
+        (v.get i = (foldFirst mx none ((lineOf x.shape (normAxis x.shape.length axis) i).map fun k => neg (x.get k))).bind fun M =>
+          (foldFirst add none ((lineOf x.shape (normAxis x.shape.length axis) i).map fun k => exp (sub (neg (x.get k)) M))).map
+            fun S => div (exp (sub (neg (x.get i)) M)) S) ∧
+        ∃ y, v.get i = some y := by
+  obtain ⟨v, h1, h2, h3⟩ := softmax_core mx sub add div exp (den_un neg (den_lift x)) hs axis hv
+  refine ⟨v, h1, h2, fun i hi => ?_⟩
+  have hL := grp_single_eq_lineOf hi (normAxis_lt hv)
+  have he := h3 i hi
+  rw [hL] at he
+  refine ⟨he, ?_⟩
+  have hne : lineOf x.shape (normAxis x.shape.length axis) i ≠ [] := by rw [← hL]; exact grp_ne_nil hi
+  obtain ⟨M, hM⟩ := foldFirst_map_some mx (fun k => neg (x.get k)) hne
+  obtain ⟨S, hS⟩ := foldFirst_map_some add (fun k => exp (sub (neg (x.get k)) M)) hne
+  exact ⟨_, by rw [he, hM, Option.bind_some, hS]; rfl⟩
+
+example : Pos [2, 2, 2] ∧ Reduce.ValidAxis 3 (-3) ∧ Reduce.normAxis 3 (-3) = 0 ∧
+    lineOf [2, 2, 2] 0 [1, 0, 1] = [[0, 0, 1], [1, 0, 1]] := by decide
+
+open NmVerif.Reduce in
+/-- **the stabilised form is the textbook formula** `exp(x[i]) / Σ_{k ∈ L} exp(x[k])` for any element operations that
+    satisfy the three laws real arithmetic has: `exp(a − m) = exp(a)/exp(m)`, `a/c + b/c = (a+b)/c`,
+    `(a/c)/(b/c) = a/b`.  (Floating-point arithmetic satisfies them only approximately: that is the harness's tolerance.) -/
+theorem softmax_eq_textbook {α : Type} (mx sub add div : α → α → α) (exp : α → α) (x : Arr α) (axis : Int)
+    (hs : Pos x.shape) (hv : ValidAxis x.shape.length axis)
+    (hexp : ∀ a m, exp (sub a m) = div (exp a) (exp m))
+    (hadd : ∀ a b c, add (div a c) (div b c) = div (add a b) c)
+    (hdiv : ∀ a b c, div (div a c) (div b c) = div a b) :
+    ∃ v, softmax mx sub add div exp (lift x) axis = some v ∧ v.shape = x.shape ∧
+      ∀ i, InShape i x.shape →
+        v.get i = (foldFirst add none ((lineOf x.shape (normAxis x.shape.length axis) i).map fun k => exp (x.get k))).map
+          fun S => div (exp (x.get i)) S := by
+  obtain ⟨v, h1, h2, h3⟩ := softmax_eq_def mx sub add div exp x axis hs hv
+  refine ⟨v, h1, h2, fun i hi => ?_⟩
+  obtain ⟨he, _⟩ := h3 i hi
+  have hL := grp_single_eq_lineOf (s := x.shape) hi (normAxis_lt hv)
+  have hne : lineOf x.shape (normAxis x.shape.length axis) i ≠ [] := by rw [← hL]; exact grp_ne_nil hi
+  obtain ⟨M, hM⟩ := foldFirst_map_some mx x.get hne
+  rw [he, hM, Option.bind_some]
+  have hmap : (lineOf x.shape (normAxis x.shape.length axis) i).map (fun k => exp (sub (x.get k) M))
+      = ((lineOf x.shape (normAxis x.shape.length axis) i).map (fun k => exp (x.get k))).map (div · (exp M)) := by
+    rw [List.map_map]; apply List.map_congr_left; intro k _; exact hexp _ _
+  rw [hmap, foldFirst_div_distrib add div (exp M) (fun a b => hadd a b (exp M)), Option.map_map]
+  congr 1
+  funext S
+  simp only [Function.comp, hexp, hdiv]
 
 /-! ## convolution -/
 
